@@ -13,6 +13,14 @@ traversal, list of `(word, matrix)` pairs); `Rep.toRes o pairs` packs it the way
 `Rep.endLang a maxlen L v` are the reference path enumerations (label concatenations of all paths
 of length `= L` / `≤ L` from `v`, resp. from a start vertex to `v`), so `List.Perm` with them is
 "exactly the accepted words, each once per accepting path".
+
+Words are joined with `Rep.joinW` (repaired code): plain concatenation for a `parse_simple`
+representation (`joinW_simple`), `"*"`-joined otherwise.  The memo theorems hold for every
+representation; the language theorems and `accepted_pairs` carry `hp : ρ.parseSimple = true`;
+`accepted_pairs_any` / `accepted_pairs_nonsimple` cover every representation (`parse_simple=False`
+included), the words being parsed by the representation's own `parse_word`.
+`Rep.automatonAcceptedD` is the public call on a caller-supplied dict (`Rep.PreDict`: recorded
+options + memo entries); `Rep.GuardOK` is its invariant (`precomputed_guard_sound`).
 -/
 import GT.Lemmas.RepAut
 
@@ -69,32 +77,133 @@ theorem automatonAccepted_agrees (ρ : Rep n R) (a : Aut V) (L : Nat) (maxlen wi
       (ρ.topSpec a L maxlen withWords startState endState edgeWords) :=
   Rep.automatonAccepted_agrees ρ a L maxlen withWords startState endState memo edgeWords hm
 
+/-- words of a `parse_simple` representation are concatenated -/
+theorem joinW_simple (ρ : Rep n R) (hp : ρ.parseSimple = true) (w1 w2 : String) :
+    ρ.joinW w1 w2 = w1 ++ w2 := Rep.joinW_simple hp w1 w2
+
+/-! ## the options guard of a caller-supplied `precomputed` dict -/
+
+/-- the empty dict `{}` satisfies the invariant -/
+theorem guard_empty (ρ : Rep n R) (a : Aut V) : GuardOK ρ a ({} : PreDict V n R) :=
+  Rep.guard_empty ρ a
+
+/-- **`precomputed_guard_sound`**: on a dict satisfying the invariant (in particular one that
+started empty and was only ever passed to `automaton_accepted`), a public call with *any*
+options keeps the invariant, and every value it returns is the specified one for the options of
+this call (calls with other options than the recorded ones raise, `precomputed_guard_refuses`).
+Retires the finding "memo key ignores the options". -/
+theorem precomputed_guard_sound (ρ : Rep n R) (a : Aut V) (L : Nat) (maxlen withWords : Bool)
+    (startState endState : Option V) (d : PreDict V n R) (edgeWords : Bool)
+    (hd : GuardOK ρ a d) :
+    GuardOK ρ a (ρ.automatonAcceptedD a L maxlen withWords startState endState d edgeWords).2 ∧
+    ∀ res, (ρ.automatonAcceptedD a L maxlen withWords startState endState d edgeWords).1 =
+        .ok res →
+      ∃ pairs, ρ.topSpec a L maxlen withWords startState endState edgeWords = .ok pairs ∧
+        res = toRes (topOpts maxlen withWords endState edgeWords) pairs :=
+  Rep.precomputed_guard_sound ρ a L maxlen withWords startState endState d edgeWords hd
+
+/-- any sequence `cs` of public calls (`Rep.Call`: length, options, states) sharing one dict
+(`Rep.runCalls`) that satisfied the invariant at the start, e.g. `{}`: every value returned by
+every call is the specified one for that call's options (`Rep.CallOK`) -/
+theorem precomputed_guard_calls (ρ : Rep n R) (a : Aut V) (cs : List (Call V))
+    (d : PreDict V n R) (hd : GuardOK ρ a d) :
+    GuardOK ρ a (ρ.runCalls a cs d).2 ∧ List.Forall₂ (CallOK ρ a) cs (ρ.runCalls a cs d).1 :=
+  Rep.precomputed_guard_calls ρ a cs d hd
+
+/-- a dict that recorded other options is refused with `ValueError` and left unchanged -/
+theorem precomputed_guard_refuses (ρ : Rep n R) (a : Aut V) (L : Nat) (maxlen withWords : Bool)
+    (startState endState : Option V) (d : PreDict V n R) (edgeWords : Bool)
+    (o' : Bool × Bool × Bool × Bool) (ho : d.options = some o')
+    (hne : o' ≠ (endState.isNone, maxlen, withWords, edgeWords)) :
+    ρ.automatonAcceptedD a L maxlen withWords startState endState d edgeWords =
+      (.error "ValueError", d) :=
+  Rep.precomputed_guard_refuses ρ a L maxlen withWords startState endState d edgeWords o' ho hne
+
 /-! ## matrices are the images of the words -/
 
 /-- every pair `(w, M)` of the specification has `M = ρ(w)` — labels read as words
 (`edge_words=True`, `labelOK_of_edgeWords`) or as single generators (`edge_words=False`,
 `labelOK_of_single`) -/
-theorem accepted_pairs_spec (ρ : Rep n R) (a : Aut V) (o : AccOpts) (hL : LabelOK ρ o) (L : Nat) (v : V)
+theorem accepted_pairs_spec (ρ : Rep n R) (a : Aut V) (o : AccOpts) (hp : ρ.parseSimple = true)
+    (hL : LabelOK ρ o) (L : Nat) (v : V)
     (pairs : List (String × DMat n n R)) (h : ρ.accSpec a o L v = .ok pairs) :
     ∀ sM ∈ pairs, ρ.value (parseWord true sM.1) = .ok sM.2.toMatrix :=
-  Rep.accSpec_pairs ρ a o hL L v pairs h
+  Rep.accSpec_pairs ρ a o hp hL L v pairs h
 
 /-- **`accepted_pairs`**: what `_automaton_accepted(..., with_words=True)` returns on a sound dict:
 the k-th matrix is, entry by entry, the image of the k-th word -/
 theorem accepted_pairs (ρ : Rep n R) (a : Aut V) (L : Nat) (o : AccOpts) (v : V)
-    (memo memo' : Memo V n R) (res : AccRes n R) (hL : LabelOK ρ o) (hw : o.withWords = true)
+    (memo memo' : Memo V n R) (res : AccRes n R) (hp : ρ.parseSimple = true) (hL : LabelOK ρ o)
+    (hw : o.withWords = true)
     (hm : MemoOK ρ a o memo) (h : ρ.accepted a L o (some v) memo = .ok (res, memo')) :
     List.Forall₂ (fun s M => ρ.value (parseWord true s) = .ok (DMat.toMatrix M)) res.words res.mats :=
-  Rep.accepted_pairs ρ a L o v memo memo' res hL hw hm h
+  Rep.accepted_pairs ρ a L o v memo memo' res hp hL hw hm h
 
 /-- the same for the public wrapper, every choice of start / end state -/
 theorem automatonAccepted_pairs (ρ : Rep n R) (a : Aut V) (L : Nat) (maxlen : Bool)
     (startState endState : Option V) (memo memo' : Memo V n R) (edgeWords : Bool)
-    (res : AccRes n R) (hL : LabelOK ρ (topOpts maxlen true endState edgeWords))
+    (res : AccRes n R) (hp : ρ.parseSimple = true)
+    (hL : LabelOK ρ (topOpts maxlen true endState edgeWords))
     (hm : MemoOK ρ a (topOpts maxlen true endState edgeWords) memo)
     (h : ρ.automatonAccepted a L maxlen true startState endState memo edgeWords = .ok (res, memo')) :
     List.Forall₂ (fun s M => ρ.value (parseWord true s) = .ok (DMat.toMatrix M)) res.words res.mats :=
-  Rep.automatonAccepted_pairs ρ a L maxlen startState endState memo memo' edgeWords res hL hm h
+  Rep.automatonAccepted_pairs ρ a L maxlen startState endState memo memo' edgeWords res hp hL hm h
+
+/-! ### every representation (`parse_simple=False`: words joined with `"*"`) -/
+
+/-- parsing a joined word gives the concatenation of the parsed parts, with
+`simple = self.parse_simple` (for `parse_simple=False`: `parse_word(a + "*" + b) = parse_word(a) +
+parse_word(b)`, empty tokens being dropped) -/
+theorem parseWord_joinW (ρ : Rep n R) (w1 w2 : String) :
+    parseWord ρ.parseSimple (ρ.joinW w1 w2) =
+      parseWord ρ.parseSimple w1 ++ parseWord ρ.parseSimple w2 := Rep.parseWord_joinW ρ w1 w2
+
+/-- every pair `(w, M)` of the specification has `M = ρ(parse_word(w))`, the word parsed the way
+the representation parses words — any representation -/
+theorem accepted_pairs_spec_any (ρ : Rep n R) (a : Aut V) (o : AccOpts) (hL : LabelOKg ρ o)
+    (L : Nat) (v : V) (pairs : List (String × DMat n n R)) (h : ρ.accSpec a o L v = .ok pairs) :
+    ∀ sM ∈ pairs, ρ.value (parseWord ρ.parseSimple sM.1) = .ok sM.2.toMatrix :=
+  Rep.accSpec_pairs_g ρ a o hL L v pairs h
+
+/-- … and of what `_automaton_accepted(..., with_words=True)` returns on a sound dict -/
+theorem accepted_pairs_any (ρ : Rep n R) (a : Aut V) (L : Nat) (o : AccOpts) (v : V)
+    (memo memo' : Memo V n R) (res : AccRes n R) (hL : LabelOKg ρ o) (hw : o.withWords = true)
+    (hm : MemoOK ρ a o memo) (h : ρ.accepted a L o (some v) memo = .ok (res, memo')) :
+    List.Forall₂ (fun s M => ρ.value (parseWord ρ.parseSimple s) = .ok (DMat.toMatrix M))
+      res.words res.mats :=
+  Rep.accepted_pairs_g ρ a L o v memo memo' res hL hw hm h
+
+/-- the public wrapper, every choice of start / end state, any representation -/
+theorem automatonAccepted_pairs_any (ρ : Rep n R) (a : Aut V) (L : Nat) (maxlen : Bool)
+    (startState endState : Option V) (memo memo' : Memo V n R) (edgeWords : Bool)
+    (res : AccRes n R) (hL : LabelOKg ρ (topOpts maxlen true endState edgeWords))
+    (hm : MemoOK ρ a (topOpts maxlen true endState edgeWords) memo)
+    (h : ρ.automatonAccepted a L maxlen true startState endState memo edgeWords = .ok (res, memo')) :
+    List.Forall₂ (fun s M => ρ.value (parseWord ρ.parseSimple s) = .ok (DMat.toMatrix M))
+      res.words res.mats :=
+  Rep.automatonAccepted_pairs_g ρ a L maxlen startState endState memo memo' edgeWords res hL hm h
+
+/-- **`accepted_pairs` for `parse_simple=False`**: if every edge label that has an edge element
+evaluates (as a `"*"`-separated word) to that element, the k-th matrix returned is the image of
+the k-th returned (`"*"`-joined) word -/
+theorem accepted_pairs_nonsimple (ρ : Rep n R) (a : Aut V) (L : Nat) (o : AccOpts) (v : V)
+    (memo memo' : Memo V n R) (res : AccRes n R) (hp : ρ.parseSimple = false)
+    (hL : ∀ l A, ρ.edgeElt o l = .ok A → ρ.value (parseWord false l) = .ok A.toMatrix)
+    (hw : o.withWords = true) (hm : MemoOK ρ a o memo)
+    (h : ρ.accepted a L o (some v) memo = .ok (res, memo')) :
+    List.Forall₂ (fun s M => ρ.value (parseWord false s) = .ok (DMat.toMatrix M))
+      res.words res.mats :=
+  Rep.accepted_pairs_nonsimple ρ a L o v memo memo' res hp hL hw hm h
+
+/-- the label hypothesis is automatic for `edge_words=True`, whatever `parse_simple` -/
+theorem labelOKg_edgeWords (ρ : Rep n R) (o : AccOpts) (he : o.edgeWords = true) : LabelOKg ρ o :=
+  Rep.labelOKg_of_edgeWords ρ o he
+
+/-- `edge_words=False`, `parse_simple=False`: it holds when every generator name passed the checks
+of `_set_generator` (non-empty, none of `( ) *`) -/
+theorem labelOKg_validNames (ρ : Rep n R) (o : AccOpts) (hp : ρ.parseSimple = false)
+    (he : o.edgeWords = false) (h1 : ∀ g ∈ ρ.gens.map Prod.fst, validName g = true) :
+    LabelOKg ρ o := Rep.labelOKg_of_validNames ρ o hp he h1
 
 /-- `with_words=False` returns the very same matrices (fresh dict) -/
 theorem accepted_mats_withWords_irrel (ρ : Rep n R) (a : Aut V) (L : Nat) (o : AccOpts) (v : V)
@@ -114,56 +223,56 @@ theorem labelOK_single (ρ : Rep n R) (o : AccOpts) (he : o.edgeWords = false)
 /-! ## the returned words are the accepted words, once per accepting path -/
 
 /-- from a start state: words of all paths of length `= L` (`maxlen=False`) / `≤ L` (`maxlen=True`) -/
-theorem accepted_words_start (ρ : Rep n R) (a : Aut V) (o : AccOpts) (h1 : o.asStart = true)
+theorem accepted_words_start (ρ : Rep n R) (hp : ρ.parseSimple = true) (a : Aut V) (o : AccOpts) (h1 : o.asStart = true)
     (L : Nat) (v : V) (pairs : List (String × DMat n n R)) (h : ρ.accSpec a o L v = .ok pairs) :
     (pairs.map Prod.fst).Perm (startLang a o.maxlen L v) :=
-  Rep.accepted_words_start ρ a o h1 L v pairs h
+  Rep.accepted_words_start ρ hp a o h1 L v pairs h
 
 /-- towards an end state: words of all paths from a start vertex to that state (repaired code:
 no early return for states without incoming edges) -/
-theorem accepted_words_end (ρ : Rep n R) (a : Aut V) (hwf : a.WF) (o : AccOpts)
+theorem accepted_words_end (ρ : Rep n R) (hp : ρ.parseSimple = true) (a : Aut V) (hwf : a.WF) (o : AccOpts)
     (h1 : o.asStart = false) (L : Nat) (v : V) (pairs : List (String × DMat n n R))
     (h : ρ.accSpec a o L v = .ok pairs) : (pairs.map Prod.fst).Perm (endLang a o.maxlen L v) :=
-  Rep.accepted_words_end ρ a hwf o h1 L v pairs h
+  Rep.accepted_words_end ρ hp a hwf o h1 L v pairs h
 
 /-- agreement with the automaton's own `enumerate_words` / `enumerate_fixed_length_paths` -/
-theorem accepted_eq_enumerate (ρ : Rep n R) (a : Aut V) (o : AccOpts) (h1 : o.asStart = true)
+theorem accepted_eq_enumerate (ρ : Rep n R) (hp : ρ.parseSimple = true) (a : Aut V) (o : AccOpts) (h1 : o.asStart = true)
     (h2 : o.maxlen = true) (L : Nat) (v : V) (pairs : List (String × DMat n n R))
     (ws : List (String × V)) (h : ρ.accSpec a o L v = .ok pairs)
     (he : a.enumWords v L = .ok ws) : (pairs.map Prod.fst).Perm (ws.map Prod.fst) :=
-  Rep.accepted_eq_enumerate ρ a o h1 h2 L v pairs ws h he
+  Rep.accepted_eq_enumerate ρ hp a o h1 h2 L v pairs ws h he
 
-theorem accepted_eq_enumFixed (ρ : Rep n R) (a : Aut V) (o : AccOpts) (h1 : o.asStart = true)
+theorem accepted_eq_enumFixed (ρ : Rep n R) (hp : ρ.parseSimple = true) (a : Aut V) (o : AccOpts) (h1 : o.asStart = true)
     (h2 : o.maxlen = false) (L : Nat) (v : V) (pairs : List (String × DMat n n R))
     (ws : List (String × V)) (h : ρ.accSpec a o L v = .ok pairs)
     (he : a.enumFixed v L = .ok ws) : (pairs.map Prod.fst).Perm (ws.map Prod.fst) :=
-  Rep.accepted_eq_enumFixed ρ a o h1 h2 L v pairs ws h he
+  Rep.accepted_eq_enumFixed ρ hp a o h1 h2 L v pairs ws h he
 
 /-- the public wrapper, `with_words=True`, start direction (explicit `start_state` or the default
 start vertex), any sound dict -/
-theorem automatonAccepted_words_start (ρ : Rep n R) (a : Aut V) (L : Nat) (maxlen : Bool)
+theorem automatonAccepted_words_start (ρ : Rep n R) (hp : ρ.parseSimple = true) (a : Aut V) (L : Nat) (maxlen : Bool)
     (startState : Option V) (memo memo' : Memo V n R) (edgeWords : Bool) (res : AccRes n R)
     (s : V) (hs : (startState <|> a.starts.head?) = some s)
     (hm : MemoOK ρ a (topOpts maxlen true (none : Option V) edgeWords) memo)
     (h : ρ.automatonAccepted a L maxlen true startState none memo edgeWords = .ok (res, memo')) :
     res.words.Perm (startLang a maxlen L s) :=
-  Rep.automatonAccepted_words_start ρ a L maxlen startState memo memo' edgeWords res s hs hm h
+  Rep.automatonAccepted_words_start ρ hp a L maxlen startState memo memo' edgeWords res s hs hm h
 
 /-- the public wrapper, `end_state=e` -/
-theorem automatonAccepted_words_end (ρ : Rep n R) (a : Aut V) (hwf : a.WF) (L : Nat)
+theorem automatonAccepted_words_end (ρ : Rep n R) (hp : ρ.parseSimple = true) (a : Aut V) (hwf : a.WF) (L : Nat)
     (maxlen : Bool) (e : V) (memo memo' : Memo V n R) (edgeWords : Bool) (res : AccRes n R)
     (hm : MemoOK ρ a (topOpts maxlen true (some e) edgeWords) memo)
     (h : ρ.automatonAccepted a L maxlen true none (some e) memo edgeWords = .ok (res, memo')) :
     res.words.Perm (endLang a maxlen L e) :=
-  Rep.automatonAccepted_words_end ρ a hwf L maxlen e memo memo' edgeWords res hm h
+  Rep.automatonAccepted_words_end ρ hp a hwf L maxlen e memo memo' edgeWords res hm h
 
-theorem automatonAccepted_eq_enumerate (ρ : Rep n R) (a : Aut V) (L : Nat)
+theorem automatonAccepted_eq_enumerate (ρ : Rep n R) (hp : ρ.parseSimple = true) (a : Aut V) (L : Nat)
     (startState : Option V) (memo memo' : Memo V n R) (edgeWords : Bool) (res : AccRes n R)
     (s : V) (hs : (startState <|> a.starts.head?) = some s) (ws : List (String × V))
     (hm : MemoOK ρ a (topOpts true true (none : Option V) edgeWords) memo)
     (h : ρ.automatonAccepted a L true true startState none memo edgeWords = .ok (res, memo'))
     (he : a.enumWords s L = .ok ws) : res.words.Perm (ws.map Prod.fst) :=
-  Rep.automatonAccepted_eq_enumerate ρ a L startState memo memo' edgeWords res s hs ws hm h he
+  Rep.automatonAccepted_eq_enumerate ρ hp a L startState memo memo' edgeWords res s hs ws hm h he
 
 /-- the reference enumeration is the literal `enumerate_fixed_length_paths` -/
 theorem enumFixed_eq_paths (a : Aut V) (s : V) (k : Nat) (xs : List (String × V))
@@ -204,15 +313,14 @@ theorem free_pathWords_mem {gs : List Gen} (h : FreeOK gs) (hs : SingleChar (fre
 /-- `freely_reduced_elements(L, maxlen, with_words=True)` returns each freely reduced word of
 length `= L` / `≤ L` exactly once, paired with its image -/
 theorem freelyReducedElements_spec (ρ : Rep n R) (L : Nat) (maxlen : Bool) (res : AccRes n R)
-    (h : ρ.freelyReducedElements L maxlen true = .ok res)
+    (hp : ρ.parseSimple = true) (h : ρ.freelyReducedElements L maxlen true = .ok res)
     (hok : FreeOK ρ.asymGens) (hs : SingleChar (freeGens ρ.asymGens)) :
     res.words.Nodup ∧
     (∀ s, s ∈ res.words ↔
       (if maxlen then s.length ≤ L else s.length = L) ∧ IsReducedWord ρ.asymGens s) ∧
-    (ρ.parseSimple = true →
-      List.Forall₂ (fun s M => ρ.value (parseWord true s) = .ok (DMat.toMatrix M))
-        res.words res.mats) :=
-  Rep.freelyReducedElements_spec ρ L maxlen res h hok hs
+    List.Forall₂ (fun s M => ρ.value (parseWord true s) = .ok (DMat.toMatrix M))
+      res.words res.mats :=
+  Rep.freelyReducedElements_spec ρ L maxlen res hp h hok hs
 
 /-! ## non-vacuity (concrete automaton `0 -a→ 1 -a→ 1 -b→ 0`, `SL(2,ℤ)` matrices) -/
 
@@ -231,9 +339,33 @@ example : FreeOK ["a", "b"] := ⟨by decide, by decide, by decide⟩
 example : ((r1.freelyReducedElements 2 true true).toOption.map fun r => r.words) =
     some ["", "a", "aa", "A", "AA"] := by decide
 
-/-- the `precomputed` dict is only sound for the options it was filled under (defect D12 of the
-design, kept as a known finding): a dict filled by a `maxlen=True` call makes a `maxlen=False` call
-return the `maxlen=True` answer -/
+/-- the guard at work: a dict filled by a `maxlen=True` call records its options; reusing it with
+`maxlen=False` raises `ValueError`, reusing it with the same options is served -/
+example :
+    let d := (r0.automatonAcceptedD a0 2 true true (some 0) none {} true).2
+    d.options = some (true, true, true, true) ∧ d.memo.length = 2 ∧
+    errOf (r0.automatonAcceptedD a0 2 false true (some 0) none d true).1 = some "ValueError" ∧
+    ((r0.automatonAcceptedD a0 1 true true (some 1) none d true).1.toOption.map (·.words)) =
+      some ["", "a", "b"] := by
+  decide
+example : ((r0.runCalls a0 [⟨2, true, true, some 0, none, true⟩, ⟨2, false, true, some 0, none, true⟩,
+    ⟨1, true, true, some 1, none, true⟩] {}).1.map errOf) = [none, some "ValueError", none] := by
+  decide
+example : GuardOK r0 a0 (r0.automatonAcceptedD a0 2 true true (some 0) none {} true).2 :=
+  (precomputed_guard_sound r0 a0 2 true true (some 0) none {} true (guard_empty _ _)).1
+
+example : LabelOKg r0ns { withWords := true, edgeWords := false } :=
+  labelOKg_validNames r0ns _ rfl rfl (by decide)
+example : LabelOKg r0ns { withWords := true } := labelOKg_edgeWords r0ns _ rfl
+
+/-- `parse_simple=False`: the words are joined with `"*"` -/
+example : ((r0ns.accepted a0 2 { withWords := true } (some 0) []).toOption.map (·.1.words)) =
+    some ["", "a", "a*a", "a*b"] := by decide
+
+/-- why the guard exists: at the level of the inner recursion `_automaton_accepted` the dict is
+only sound for the options it was filled under (former defect D12; the key is `(length, state)`
+only): a dict filled by a `maxlen=True` call makes a `maxlen=False` call return the `maxlen=True`
+answer -/
 example :
     let m := ((r0.accepted a0 2 { withWords := true } (some 0) []).toOption.map (·.2)).getD []
     ((r0.accepted a0 2 { withWords := true, maxlen := false } (some 0) m).toOption.map
